@@ -447,6 +447,119 @@ def run(name, repo, timeout_s):
     return res
 
 
+# ---------------------------------------------------------------- error name -> ErrorKind
+
+STANDARD = [("org.varlink.service.InterfaceNotFound", "InterfaceNotFound"), ("org.varlink.service.InvalidParameter", "InvalidParameter"),
+            ("org.varlink.service.MethodNotFound", "MethodNotFound"), ("org.varlink.service.MethodNotImplemented", "MethodNotImplemented")]
+
+
+def run_error_kind(repo, timeout_s):
+    t0 = time.time()
+    mir = dump_mir(repo)
+    params, blocks = ms.find_function(mir, IMPL + "::from", r"^_1: Reply$")
+    ids = {"": 0}
+
+    def sid(x):
+        if isinstance(x, str):
+            if x not in ids:
+                ids[x] = 1000 + len(ids)
+            return z3.IntVal(ids[x])
+        return x
+    name = z3.Int("error_name")
+    field = z3.Int("field_value")
+    err_p, par_p, parse, fld_p = z3.Int("error_present"), z3.Int("parameters_present"), z3.Int("parse"), z3.Int("field_present")
+    base = [z3.And(d >= 0, d <= 1) for d in (err_p, par_p, parse, fld_p)] + [field >= 1, field < 1000, name >= 1]
+    PARAMS = ms.Opaque("reply parameters")
+    reply = ms.Struct({0: ms.Enum(z3.Int("continues_present"), {"Some": ms.Struct({0: z3.Bool("cv")})}),
+                       1: ms.Enum(err_p, {"Some": ms.Struct({0: name})}),
+                       2: ms.Enum(par_p, {"Some": ms.Struct({0: PARAMS})})}, "Reply")
+
+    def m_eq(ex, path, a):
+        x = ex.load(path, ex.load(path, a[0]))
+        y = ex.load(path, ex.load(path, a[1]))
+        return sid(x) == sid(y)
+
+    def m_from_value(ex, path, a):
+        return ms.Enum(parse, {"Ok": ms.Struct({0: ms.Struct({0: ms.Enum(fld_p, {"Some": ms.Struct({0: field})})}, "ErrorParams")}),
+                               "Err": ms.Struct({0: ms.Opaque("serde error")})})
+
+    def m_unwrap_or_default(ex, path, a):
+        o = a[0]
+        if not isinstance(o, ms.Enum):
+            raise Unsupported("unwrap_or_default of %r" % (o,))
+        if isinstance(o.discr, int):
+            return o.payloads["Some"].f[0] if o.discr == 1 else z3.IntVal(0)
+        return z3.If(o.discr == 1, sid(o.payloads["Some"].f[0]), z3.IntVal(0))
+
+    def m_string_new(ex, path, a):
+        return z3.IntVal(0)
+    models_ = [(r"<&Cow<'_, str> as PartialEq<&str>>::eq$", m_eq), (r"^from_value::<Error\w+>$", m_from_value),
+               (r"Option::<std::string::String>::unwrap_or_default$", m_unwrap_or_default), (r"^std::string::String::new$", m_string_new)]
+    solver = z3.Solver()
+    solver.set("timeout", max(1000, int(timeout_s * 1000 / 4)))
+    ex = ms.Exec(blocks, models_, solver, base)
+    import re
+    hm = re.search(r"^fn (<impl at [^>]*>)::from\(_1: Reply\)", mir, re.M)
+    if not hm:
+        raise Unsupported("header of ErrorKind::from")
+    ex.promoted = ms.find_promoted(mir, re.escape(hm.group(1)) + "::from")
+    finished = ex.run({params[0]: reply})
+    if not finished:
+        raise Unsupported("no returning path")
+    queries = ex.queries
+    failed = None
+    seen = set()
+
+    def ask(pc, neg, label):
+        nonlocal queries, failed
+        solver.push(); solver.add(*base); solver.add(*pc); solver.add(neg)
+        queries += 1
+        r = solver.check()
+        if r == z3.sat and failed is None:
+            m = solver.model()
+            ev = lambda t: m.eval(t, model_completion=True).as_long()  # noqa: E731
+            nm = ev(name)
+            idx = next((i for i, (full, _) in enumerate(STANDARD) if ids.get(full) == nm), 4)
+            failed = (label, [2, idx, ev(err_p), ev(par_p), 1 - ev(parse), ev(fld_p)])
+        solver.pop()
+        if r == z3.unknown:
+            raise Unsupported("solver gave no answer")
+    for full, _ in STANDARD:
+        sid(full)
+    for path, ret in finished:
+        if not isinstance(ret, ms.Enum) or not isinstance(ret.discr, str):
+            raise Unsupported("from returns %r" % (ret,))
+        var = ret.discr
+        seen.add(var)
+        payload = ret.payloads[var].f.get(0)
+        std = dict((v, full) for full, v in STANDARD)
+        if var in std:
+            ask(path.pc, z3.Not(z3.And(err_p == 1, name == sid(std[var]))), "P:c07.standard_error_kind_only_for_its_error_name")
+            want = z3.If(z3.And(par_p == 1, parse == 0, fld_p == 1), field, z3.IntVal(0))
+            ask(path.pc, sid(payload) != want, "P:c07.standard_error_carries_its_parameter")
+        elif var == "VarlinkErrorReply":
+            ask(path.pc, z3.And(err_p == 1, z3.Or(*[name == sid(full) for full, _ in STANDARD])), "P:c07.standard_error_name_maps_to_its_kind")
+            if not (isinstance(payload, ms.Struct) and payload.tag == "Reply"):
+                ask(path.pc, z3.BoolVal(True), "P:c07.other_error_carries_the_full_reply")
+        else:
+            ask(path.pc, z3.BoolVal(True), "P:c07.standard_error_name_maps_to_its_kind")
+    res = {"verdict": "pass", "reason": "", "checks_failed": [], "playback": [], "failed_labels": [],
+           "checks_total": queries, "verification_time_s": round(time.time() - t0, 2), "oracle_ok": [], "covers": [], "covers_unsat": []}
+    if failed:
+        res.update(verdict="violation", failed_labels=[failed[0]], playback=[[failed[1]]])
+    else:
+        res["oracle_ok"] = ["P:c07.standard_error_kind_only_for_its_error_name", "P:c07.standard_error_carries_its_parameter",
+                            "P:c07.standard_error_name_maps_to_its_kind", "P:c07.other_error_carries_the_full_reply"]
+        want = {v for _, v in STANDARD} | {"VarlinkErrorReply"}
+        res["covers"] = [{"desc": "every ErrorKind variant the mapping can produce is produced on some path",
+                          "status": "SATISFIED" if want <= seen else "UNSATISFIABLE"}]
+        res["covers_unsat"] = [c["desc"] for c in res["covers"] if c["status"] != "SATISFIED"]
+        if res["covers_unsat"]:
+            res.update(verdict="inconclusive", reason="vacuous: %s" % res["covers_unsat"])
+    res["detail"] = {"paths": len(finished), "models_used": sorted(ex.models_used)}
+    return res
+
+
 def main():
     ap = argparse.ArgumentParser()
     ap.add_argument("--repo", required=True)
@@ -457,7 +570,7 @@ def main():
     a = ap.parse_args()
     t0 = time.time()
     try:
-        res = run(a.instance, a.repo, a.timeout)
+        res = run_error_kind(a.repo, a.timeout) if a.instance == "c07_error_kind" else run(a.instance, a.repo, a.timeout)
     except Unsupported as e:
         res = {"verdict": "inconclusive", "reason": "outside the MIR reader / the callee models: %s" % e,
                "checks_total": 0, "checks_failed": [], "oracle_ok": [], "covers": [], "covers_unsat": [],
